@@ -148,6 +148,10 @@ def handle (m : String) (j : Json) : Option (R Json) :=
           | some o => pure (Sem.opt o v)
           | none => throw s!"unknown option in sems"
       return jArgs f (parseSem cv f len items)
+  | "c01.wf" => some do
+      -- do the hypotheses of the re-alignment theorems (Props/C01) hold for this format?
+      let f ← fmtOf (← field j "fmt")
+      return Json.mkObj [("multi_last", Json.bool (multiLastB f.fargs)), ("nodup", Json.bool (nodupKeysB f.fargs))]
   | "c05.history" => some do
       let reqs ← (← fArr j "requests").toList.mapM reqOf
       let rec go (prev : St) : List (Conv × Fmt × Bool × List Str) → List Json
